@@ -98,7 +98,7 @@ def make_recording(rng):
     a = rng.choice((None, None, 0.01, 0.02, 0.05, 0.005))
     win = DEFAULTS["a"] if a is None else a
     block = int(round(win * rate))
-    thr = rng.choice((None, 45.0, 55.0)) if width == 2 else rng.choice((25.0, 30.0))
+    thr = rng.choice((None, 45.0, 55.0, -15.0)) if width == 2 else rng.choice((25.0, 30.0, -15.0))  # a negative threshold is as good as any
     eff_thr = DEFAULTS["e"] if thr is None else thr
     pattern = []
     total = rng.choice((30, 80, 200))
@@ -197,6 +197,7 @@ def build_argv(rng, rec, tmp, idx, allow_files=True, in_process=True):
         argv += ["--time-format", tf]
     meta["time_format"] = tf or "%S"
     pf = rng.choice((None, None, "{id}#{start}#{end}#{duration}", "[{id}]: {start} -> {end}", "{start} {end}", "{id}\\t{duration}",
+                     '{{"id": {id}, "start": "{start}", "end": "{end}"}}', "{id} {start} {end} @{timestamp:<30}|", "{timestamp!s} # {id} {duration}",
                      "d\u00e9but {id} \u2192 {start} \u00e0 {end}", "\u4e8b\u4ef6{id} \u2014 {duration}"))
     if pf is not None:
         argv += ["--printf", pf]
@@ -321,9 +322,20 @@ def parse_line(line, template):
     import re
 
     tpl = template.replace("\\t", "\t").replace("\\n", "\n")
-    rx = re.escape(tpl)
-    for name in ("id", "start", "end", "duration"):
-        rx = rx.replace(re.escape("{" + name + "}"), f"(?P<{name}>[0-9:.|]+)")
+    # str.format semantics: {{ and }} are literal braces; {timestamp...} is wall-clock text we cannot predict
+    parts = re.split(r"(\{\{|\}\}|\{[a-z]+(?:![rsa])?(?::[^{}]*)?\})", tpl)
+    rx = ""
+    for part in parts:
+        if part == "{{":
+            rx += re.escape("{")
+        elif part == "}}":
+            rx += re.escape("}")
+        elif re.fullmatch(r"\{(id|start|end|duration)\}", part):
+            rx += f"(?P<{part[1:-1]}>[0-9:.|]+)"
+        elif part.startswith("{timestamp"):
+            rx += r"(?P<timestamp>[0-9/: .]+?)\s*"
+        else:
+            rx += re.escape(part)
     mo = re.fullmatch(rx, line)
     return mo.groupdict() if mo else None
 
